@@ -45,6 +45,11 @@ func corpus() []piece {
 		{"~D", []val{bigs("-9223372036854775809")}}, {"~:X", []val{bigs("18446744073709551616")}}, {"~B", []val{vInt(-5)}}, {"~:O", []val{vInt(4096)}},
 		{"~x", []val{vInt(255)}}, {"~D", []val{s("abc")}}, {"~5D", []val{vSym("ab")}}, {"~D", []val{vChr('a')}}, {"~:D", []val{s("abcdefg")}},
 		{"~@D", []val{s("abc")}}, {"~D", []val{vInts(1, 2)}}, {"~D", nil}, {"~vD", []val{vInt(5)}}, {"~D~D", []val{vInt(1)}},
+		// v to the left of #, and the same integer looked at twice
+		{"~v,,#A|", []val{vInt(0), vSym("x"), vSym("y")}}, {"~v,,,#:D", []val{vNil, vInt(1234567), vSym("a")}}, {"~v,v,,#:X", []val{vInt(6), vChr('*'), vInt(255)}},
+		{"~#,vD|", []val{vChr('_'), vInt(5), vInt(6)}}, {"~v,#,#A|", []val{vInt(9), vSym("x"), vInt(1)}},
+		{"~D~:*|~D", []val{bigs("-100000000000000000000")}}, {"~B~0@*|~X|~:*~A", []val{bigs("-9223372036854775809")}}, {"~:D~:*|~:@D", []val{bigs("100000000000000000000")}},
+		{"~{~O~:*=~D ~}", []val{vList(bigs("-18446744073709551616"), vInt(-8))}}, {"~D~:*|~D", []val{bigs("-9223372036854775808")}}, {"~@{~X~:*/~S ~}", []val{bigs("-340282366920938463463374607431768211456")}},
 		// ~A ~S ~C
 		{"~A|~S", []val{s("ab"), s("ab")}}, {"~:A ~:A ~:A", []val{vList(), vNil, vInts(1)}}, {"~5A|~5@A|~5,2A|~5,2,1A|", []val{vInt(1), vInt(2), vInt(3), vInt(4)}},
 		{"~3,,4S|", []val{s("ab")}}, {"~vA|~v,vA", []val{vInt(4), vInt(1), vInt(3), vInt(2), vInt(9)}}, {"~#A|", []val{vInt(1), vInt(2), vInt(3)}},
@@ -225,4 +230,62 @@ func printerAgreement(ctx *common.Ctx, g *gen, n int) {
 		ctx.Meta.Extra = map[string]any{}
 	}
 	ctx.Meta.Extra["printer_agreement_checked"] = checked
+}
+
+// paramOrderSweep: ~mincol,colinc,minpad A, ~mincol,padchar,commachar,interval :D and ~colnum,colinc T with each
+// numeric parameter written out, taken with v, or given as #, in every combination — so v stands before # and # before
+// v within one directive — and with 0, 1 or 2 arguments after the directive's own so that the count # yields varies.
+func paramOrderSweep() []piece {
+	var ps []piece
+	kinds := []string{"lit", "v", "#"}
+	for surplus := 0; surplus <= 2; surplus++ {
+		extra := []val{vInt(41), vSym("zz")}[:surplus]
+		build := func(lits []int, pick []int, mid string, tail string, own val, padV bool) piece {
+			var parts []string
+			var args []val
+			for i, k := range pick {
+				switch kinds[k] {
+				case "lit":
+					parts = append(parts, fmt.Sprint(lits[i]))
+				case "v":
+					parts = append(parts, "v")
+					args = append(args, vInt(int64(lits[i])))
+				default:
+					parts = append(parts, "#")
+				}
+				if i == 0 && mid != "" {
+					if padV {
+						parts = append(parts, "v")
+						args = append(args, vChr('*'))
+					} else {
+						parts = append(parts, "'.")
+					}
+					parts = append(parts, "'_")
+				}
+			}
+			ctl := "~" + strings.Join(parts, ",") + tail + "|"
+			return piece{ctl, append(append(args, own), extra...)}
+		}
+		for a := 0; a < 3; a++ {
+			for b := 0; b < 3; b++ {
+				for c := 0; c < 3; c++ {
+					ps = append(ps, build([]int{6, 2, 1}, []int{a, b, c}, "", "A", vSym("x"), false))
+					ps = append(ps, build([]int{5, 3, 2}, []int{a, b, c}, "", "@S", vStr("y"), false))
+				}
+				// ~mincol,padchar,'_,interval:D
+				ps = append(ps, build([]int{12, 2}, []int{a, b}, "D", ":D", vInt(1234567), false))
+				ps = append(ps, build([]int{12, 3}, []int{a, b}, "D", ":@X", vInt(-1048575), true))
+				ps = append(ps, build([]int{4, 3}, []int{a, b}, "", "T", vInt(0), false))
+			}
+		}
+	}
+	// ~T takes no argument of its own: drop the placeholder
+	for i := range ps {
+		if strings.HasSuffix(ps[i].ctl, "T|") {
+			n := strings.Count(ps[i].ctl, "v")
+			ps[i].args = append(append([]val{}, ps[i].args[:n]...), ps[i].args[n+1:]...)
+			ps[i].ctl = "ab" + ps[i].ctl
+		}
+	}
+	return ps
 }
